@@ -414,3 +414,67 @@ def run_native_features(features, proto=None):
     if p.returncode not in (0, 1) or (p.returncode == 1 and not any('FAIL' in l for l in lines)):
         return {'error': 'replay_cfg did not build/run', 'stderr': p.stderr[-1500:]}
     return {'violated': any('FAIL' in l for l in lines), 'lines': lines}
+
+
+# ----------------------------------------------------------------------------- reuse of one core builder / one parser, setters
+def confirm_core_reuse(ses, v):
+    r = v['replay']; proto = r['proto']; m = {'key': '07' * 32, 'nonce': '09' * 32, 'message': '6d7367', 'footer': '666f6f74', 'assertion': '6173736572'}
+    b = build_step(proto, m, r.get('fkind', 'some'), r.get('akind', 'some'), out='T'); b['times'] = 3
+    steps = key_steps(proto, m) + [b]
+    f = None if r.get('fkind') == 'none' else _txt(m['footer']); a = None if r.get('akind', 'some') == 'none' or not PROTO_ASSERT.get(proto) else _txt(m['assertion'])
+    for i in range(3): steps.append({'op': 'parse_core', 'proto': proto, 'token': '$T_%d' % i, 'key': '$k_pk', 'footer': f, 'assertion': a, 'out': 'R%d' % i})
+    out = run_native({'steps': steps, 'violated_if': [[{'var': 'R%d' % i, 'is': 'not_ok_eq', 'value': 'msg'}] for i in range(3)]}); ses.native_runs = getattr(ses, 'native_runs', 0) + 1
+    v['native'] = out
+    if out.get('violated'): v['what'] += ' [natively: three tokens from one %s core builder, not all of them round-trip]' % proto
+    return bool(out.get('violated')) if 'violated' in out else None
+
+
+def confirm_setter(ses, v):
+    """last value given to set_footer / set_implicit_assertion wins, for every value including the empty string"""
+    for proto in ('v4.local', 'v4.public', 'v3.local'):
+        m = {'key': '07' * 32, 'nonce': '09' * 32}
+        steps = key_steps(proto, m); cases = []
+        for what in ('footer', 'assertion'):
+            for first, second in (('A', ''), ('', 'A'), ('A', 'B')):
+                tf = second if what == 'footer' else None; ta = second if what == 'assertion' else None
+                name = 'T%d' % len(cases)
+                steps.append({'op': 'build_core', 'proto': proto, 'key': '$k_sk', 'nonce': '09' * 32, 'message': '{}', 'footer': tf if tf else None, 'assertion': ta if ta else None, 'out': name})
+                for layer in ('generic', 'prelude'):
+                    rn = 'R%d_%s' % (len(cases), layer)
+                    steps.append({'op': 'parser_run', 'proto': proto, 'layer': layer, 'default_parser': False, 'key': '$k_pk', 'footer': None, 'assertion': None, 'checks': [], 'validators': [],
+                                  'pre_ops': [[what, first], [what, second]], 'tokens': ['$' + name], 'out': rn})
+                cases.append((what, first, second))
+        out = run_native({'steps': steps, 'violated_if': []}); ses.native_runs = getattr(ses, 'native_runs', 0) + 1
+        runs = [t for t in (out.get('trace') or []) if 'parser_run' in t]
+        i = 0
+        for what, first, second in cases:
+            for layer in ('generic', 'prelude'):
+                if i >= len(runs): break
+                res = runs[i]['results'][0]; i += 1
+                if res.get('parse') != 'ok':
+                    v['native'] = {'proto': proto, 'layer': layer, 'setter': what, 'values': [first, second], 'token_built_with': second, 'library': res}
+                    v['what'] += ' [natively: %s parser, %s set to %r then %r, token built with %r is rejected]' % (layer, what, first, second, second); v['replay'] = {'kind': 'setter'}
+                    return True
+    return False
+
+
+def confirm_history(ses, v):
+    """one parser, several parses: the verdict for a token must not depend on what was parsed before (same token under the right then a wrong key; bad then good token)"""
+    for proto in ([v['replay'].get('proto')] if v['replay'].get('proto') else []) + ['v4.public', 'v4.local']:
+        m = {'key': '07' * 32, 'nonce': '09' * 32}; m2 = {'key': '08' * 32, 'seed': '08' * 32}
+        steps = key_steps(proto, m) + key_steps(proto, m2, 'k2')
+        steps.append({'op': 'build_core', 'proto': proto, 'key': '$k_sk', 'nonce': '09' * 32, 'message': '{"sub":"a"}', 'footer': None, 'assertion': None, 'out': 'T'})
+        for layer in ('generic', 'prelude'):
+            steps.append({'op': 'parser_run', 'proto': proto, 'layer': layer, 'default_parser': False, 'key': '$k_pk', 'alt_key': '$k2_pk', 'alt_key_for': [1, 3], 'footer': None, 'assertion': None,
+                          'checks': [], 'validators': [], 'tokens': ['$T', '$T', '$T', '$T'], 'out': 'R_' + layer})
+        out = run_native({'steps': steps, 'violated_if': []}); ses.native_runs = getattr(ses, 'native_runs', 0) + 1
+        for t in [t for t in (out.get('trace') or []) if 'parser_run' in t]:
+            kinds = [r.get('parse') for r in t['results']]
+            if kinds != ['ok', 'err', 'ok', 'err']:
+                v['native'] = {'proto': proto, 'sequence': 'parse(T,K) parse(T,K2) parse(T,K) parse(T,K2)', 'library': kinds}
+                v['what'] += ' [natively: %s one parser, same token under K, K\', K, K\' -> %s]' % (proto, kinds); v['replay'] = {'kind': 'c15_history', 'proto': proto}
+                return True
+    return False
+
+
+PY_CONFIRM.update({'core_builder_reuse': confirm_core_reuse, 'setter': confirm_setter, 'c15_history': confirm_history})
